@@ -84,7 +84,8 @@ class Tokenizer:
             return False
         if tok.type in {Token.NL, Token.COMMENT, Token.WS}:
             return True
-        if tok.type == Token.ERRORTOKEN and tok.string.isspace():
+        if tok.type == Token.ERRORTOKEN and tok.string == "\r":
+            # a stray carriage return; any other unknown character, blank-like or not (VT, NBSP, U+2028 ...), is an error
             return True
         if tok.type == Token.NEWLINE and self._tokens and self._tokens[-1].type == Token.NEWLINE:
             return True
